@@ -194,6 +194,7 @@ func RunHX(c HXCheck, tier string) int {
 		"worker_restarts":               pool.Restarts,
 		"failures_total":                total.Failures,
 		"counters":                      total.Counters,
+		"observation_classes":           topObs(total.Obs, 30),
 	}
 	if c.Cov != nil {
 		c.Cov(total, cov)
@@ -225,6 +226,27 @@ func RunHX(c HXCheck, tier string) int {
 	}
 	fmt.Printf("%s %s: OK states=%d transitions=%d exhaustive=%v wall=%.1fs\n", c.Prop, tier, total.States, total.Transitions, total.Exhaustive, time.Since(start).Seconds())
 	return 0
+}
+
+// topObs returns the most frequent observation classes (vacuity guard: what kinds of outcomes were seen).
+func topObs(m map[string]int, n int) map[string]int {
+	type kv struct {
+		k string
+		v int
+	}
+	var l []kv
+	for k, v := range m {
+		l = append(l, kv{k, v})
+	}
+	sort.Slice(l, func(i, j int) bool { return l[i].v > l[j].v })
+	out := map[string]int{}
+	for i, e := range l {
+		if i >= n {
+			break
+		}
+		out[e.k] = e.v
+	}
+	return out
 }
 
 func keys(m map[string]*Finding) []string {
